@@ -7,7 +7,7 @@ use std::fmt;
 use std::sync::atomic::{AtomicU64, Ordering};
 
 /// renderings a payload can have ('a' is replaced per format mode so the four modes differ)
-pub const ALPHABET: [&str; 5] = ["a", "a\nb", "a\n\nb", "\na", "\u{e9}\nb"];
+pub const ALPHABET: [&str; 6] = ["a", "a\nb", "a\n\nb", "\na", "\u{e9}\nb", "a\r\nb"];
 pub const MODES: [&str; 4] = ["{}", "{:#}", "{:?}", "{:#?}"];
 const MODE_CHAR: [char; 4] = ['a', 'A', 'x', 'X'];
 
